@@ -8,7 +8,7 @@ the same the harness sends to the Lean driver; `render()` prints it as Lean term
   value  := None | bool | int | {"f": "n/d" | "nan" | "inf" | "-inf"} | str | [value…] (tuple/list literal)
   expr   := ["var"] | ["lit", value] | ["cmp", op, expr, expr] | ["and", e, e] | ["or", e, e] | ["not", e]
           | ["mod", e, int] | ["bitand", e, e] | ["in", e, [value…]] | ["isnone", e] | ["isnan", e]
-          | ["isscalar", e]
+          | ["isscalar", e] | ["len", e]
   schema := ["type", name] | ["func", expr] | ["oracle", name] | ["all", [schema…]] | ["any", [schema…]]
           | ["list", [schema…]] | ["dict", [[key, optional, schema]…]]
   action := ["default", key, value] | ["default_nan", key, value] | ["guard_ne", key, value, err]
@@ -141,11 +141,15 @@ def expr(node, param: str):
         return ["bitand", expr(node.left, param), expr(node.right, param)]
     if isinstance(node, ast.Call):
         f = node.func
+        if isinstance(f, ast.Name) and f.id == "len" and len(node.args) == 1 and not node.keywords:
+            return ["len", expr(node.args[0], param)]
         if isinstance(f, ast.Attribute) and isinstance(f.value, ast.Name):
             if (f.value.id, f.attr) == ("np", "isnan") and len(node.args) == 1 and not node.keywords:
                 return ["isnan", expr(node.args[0], param)]
             if (f.value.id, f.attr) == ("np", "isscalar") and len(node.args) == 1 and not node.keywords:
                 return ["isscalar", expr(node.args[0], param)]
+            if False:
+                pass
             if (f.value.id, f.attr) == ("common", "is_method") and len(node.args) == 2 and not node.keywords:
                 items = const_value(node.args[1])
                 if not isinstance(items, list):
@@ -670,7 +674,34 @@ def extract_machine_flags():
             raise Unsupported(f"{cb}_check_conf not found")
     if text.count("self.pipeline_cfg['pipeline'][input_step] = ") != 10:
         raise Unsupported("the check callbacks do not all store their step configuration in pipeline_cfg")
-    return {"bandWhole": band_whole, "resetPipelineCfg": reset}
+    return {"bandWhole": band_whole, "resetPipelineCfg": reset, "mergeOnlyDicts": extract_update_conf()}
+
+
+UPDATE_CONF_BODY = """config = copy.deepcopy(def_cfg)
+for key, value in user_cfg.items():
+    if %s:
+        config[key] = update_conf(config.get(key, {}), value)
+    else:
+        if value == 'NaN':
+            value = np.nan
+        elif value == 'inf':
+            value = np.inf
+        elif value == '-inf':
+            value = -np.inf
+        config[key] = value
+return config"""
+
+
+def extract_update_conf():
+    """update_conf has the shape the model mirrors; is a user dictionary merged only into a dictionary?"""
+    fn = find_function(parse(CHECK_CONFIGURATION), "update_conf")
+    body = [s for s in fn.body if not (isinstance(s, ast.Expr) and isinstance(s.value, ast.Constant))]
+    text = "\n".join(ast.unparse(s) for s in body)
+    if text == UPDATE_CONF_BODY % "isinstance(value, Mapping)":
+        return False
+    if text == UPDATE_CONF_BODY % "isinstance(value, Mapping) and isinstance(config.get(key, {}), Mapping)":
+        return True
+    raise Unsupported("update_conf: unexpected body")
 
 
 def extract():
@@ -736,6 +767,8 @@ def lean_expr(e) -> str:
         return f"Expr.npIsnan ({lean_expr(e[1])})"
     if tag == "isscalar":
         return f"Expr.npIsscalar ({lean_expr(e[1])})"
+    if tag == "len":
+        return f"Expr.len ({lean_expr(e[1])})"
     raise Unsupported(f"expr {e!r}")
 
 
@@ -802,8 +835,8 @@ def render(data) -> str:
     out.append("")
     fl = data["flags"]
     out.append("/-- read from `pandora/state_machine.py` (`check_band_pipeline`, `check_conf`) -/")
-    out.append("def machineFlags : MachineFlags := { bandWhole := %s, resetPipelineCfg := %s }"
-               % ("true" if fl["bandWhole"] else "false", "true" if fl["resetPipelineCfg"] else "false"))
+    out.append("def machineFlags : MachineFlags := { bandWhole := %s, resetPipelineCfg := %s, mergeOnlyDicts := %s }"
+               % tuple("true" if fl[k] else "false" for k in ("bandWhole", "resetPipelineCfg", "mergeOnlyDicts")))
     out.append("")
     inp = data["input"]
     out.append("def inputSchemas : InputSchemas := {")
